@@ -204,6 +204,14 @@ func genTrapCase(r *rng.R) *trapCase {
 	}
 	p.code = append(p.code, 0x00)
 	c.code = p.code
+	// rarely: thousands of traps in ONE run (a loop storing to the trap address 24 x 256 times)
+	if r.Chance(1) && c.t >= 0x0200 {
+		c.kind, c.base = 0, "sparse"
+		if c.path == "N" {
+			c.path = "A"
+		}
+		c.code = []uint8{0xA9, r.Byte(), 0xA0, 24, 0xA2, 0x00, 0x8D, lo(t), hi(t), 0xCA, 0xD0, 0xFA, 0x88, 0xD0, 0xF5, 0x00}
+	}
 	return c
 }
 
